@@ -88,6 +88,9 @@ def vocabulary_problems(schema: dict, vname: str) -> List[str]:
                 out.append(f"type array {t} at {list(path)}")
             if t == "null":
                 out.append(f"type null at {list(path)}")
+            for kw in ("exclusiveMinimum", "exclusiveMaximum"):
+                if kw in s and not isinstance(s[kw], bool):
+                    out.append(f"numeric {kw} at {list(path)} (a boolean modifier of minimum / maximum in OpenAPI 3.0)")
         r = s.get("$ref")
         if isinstance(r, str) and not r.startswith(PREFIX[vname]):
             out.append(f"$ref {r!r} without prefix {PREFIX[vname]!r} at {list(path)}")
@@ -125,6 +128,11 @@ def oas30_to_draft7(schema: Any) -> Any:
                 inner = {k: d.pop(k) for k in list(d) if k in ("anyOf", "oneOf", "allOf", "$ref")}
                 d["anyOf"] = [inner, {"type": "null"}]
         d.pop("example", None)
+        # exclusiveMinimum / exclusiveMaximum: boolean modifiers of minimum / maximum (draft-04 style)
+        for kw, bound in (("exclusiveMinimum", "minimum"), ("exclusiveMaximum", "maximum")):
+            if isinstance(d.get(kw), bool):
+                if d.pop(kw) and bound in d:
+                    d[kw] = d.pop(bound)
 
     walk_schema(s, visit)
     return s
@@ -272,6 +280,14 @@ class Holder:
     pay: Payment = field(default_factory=Shop)
     shapes: List[Shape] = field(default_factory=list)
 Ann = Annotated[Union[Online, Shop], discriminator("type")]
+Exc1 = Annotated[int, schema(exc_min=0, exc_max=10)]
+Exc2 = Annotated[float, schema(exc_min=0, min=5, exc_max=10, max=20)]
+Exc3 = Annotated[float, schema(exc_min=5, min=0, exc_max=10, max=10)]
+@dataclass
+class Bounds:
+    a: Exc1 = 1
+    b: List[Exc2] = field(default_factory=list)
+    c: Optional[Exc3] = None
 '''
 
 
@@ -292,11 +308,30 @@ def run_worlds(st):
         ("ListPayment", List[m.Payment], [[d] for d in pay] + [[]]),
         ("Shape", m.Shape, shp),
         ("Holder", m.Holder, [{}, {"pay": pay[1]}, {"pay": pay[2]}, {"shapes": [shp[1], shp[4]]}, {"shapes": [shp[3]]}, {"pay": pay[4]}]),
+        ("Exc1", m.Exc1, [0, 1, 9, 10, -1, 11, 5.5, "a"]),
+        ("Exc2", m.Exc2, [0, 4.5, 5, 7.5, 10, 10.5, 20]),
+        ("Exc3", m.Exc3, [0, 5, 5.5, 9.5, 10, 11]),
+        ("Bounds", m.Bounds, [{}, {"a": 0}, {"a": 10}, {"a": 5, "b": [5, 9.5]}, {"b": [4]}, {"b": [10]}, {"c": 5}, {"c": 6}, {"c": None}, {"c": 10}]),
         ("Ann", m.Ann, [{"type": "Online"}, {"type": "Online", "card": "4"}, {"type": "Shop", "till": [1, "a"]}, {"type": "Shop", "till": [1]}, {"type": "x"}, {}]),
     ]
     try:
         for name, tp, data in targets:
             check_versions(tp, data, "world:" + name, name, WORLD_SRC, "world:" + name, False, st)
+        # the conversion to a version is itself a serialization: global serialization settings must not leak into it
+        from apischema import PassThroughOptions, settings
+
+        for sname, setter in (
+            ("pass_through_any", lambda: setattr(settings.serialization, "pass_through", PassThroughOptions(any=True))),
+            ("pass_through_all", lambda: setattr(settings.serialization, "pass_through", PassThroughOptions(any=True, collections=True, dataclasses=True, enums=True, tuple=True))),
+            ("exclude_none+defaults", lambda: (setattr(settings.serialization, "exclude_none", True), setattr(settings.serialization, "exclude_defaults", True))),
+            ("check_type+fall_back_on_any", lambda: (setattr(settings.serialization, "check_type", True), setattr(settings.serialization, "fall_back_on_any", True))),
+        ):
+            try:
+                setter()
+                for name, tp, data in targets[:4]:
+                    check_versions(tp, data, f"world:{name}@{sname}", name, WORLD_SRC, f"world:{name}@{sname}", True, st)
+            finally:
+                dc.world.restore_settings()
     finally:
         sys.modules.pop(m.__name__, None)
         apischema.cache.reset()
